@@ -1,6 +1,7 @@
 // crypt_gensalt* properties: C10 (accepted and kept), C11 (documented cost),
 // C12 (salts carry the randomness), C13 (output_size honoured).
 #include <signal.h>
+#include <sys/time.h>
 #include <sys/wait.h>
 
 #include "api.hpp"
@@ -155,6 +156,41 @@ static std::string count_class(Method m, unsigned long count) {
   return "accept";
 }
 
+// run crypt_rn in a child with a wall-clock limit; returns 1 finished ok, 0 finished fail, -1 killed by limit
+static int hash_with_limit_ms(const Bytes &P, const Bytes &S, int ms, Bytes &out, int *err = nullptr) {
+  int fd[2];
+  if (pipe(fd)) return -1;
+  pid_t pid = fork();
+  if (pid == 0) {
+    close(fd[0]);
+    struct itimerval it;
+    memset(&it, 0, sizeof it);
+    it.it_value.tv_sec = ms / 1000;
+    it.it_value.tv_usec = (ms % 1000) * 1000;
+    setitimer(ITIMER_REAL, &it, nullptr);
+    HashRes h = hash_rn(P, S);
+    std::string msg = (h.ok ? "1" : "0") + std::to_string(h.err) + ":" + h.out;
+    (void)!write(fd[1], msg.data(), msg.size());
+    _exit(0);
+  }
+  close(fd[1]);
+  std::string buf;
+  char t[512];
+  ssize_t n;
+  while ((n = read(fd[0], t, sizeof t)) > 0) buf.append(t, (size_t)n);
+  close(fd[0]);
+  int st = 0;
+  waitpid(pid, &st, 0);
+  if (WIFSIGNALED(st) && WTERMSIG(st) == SIGALRM) return -1;
+  if (buf.empty()) return -1;  // the child died otherwise: not a statement about the setting
+  size_t colon = buf.find(':');
+  if (colon == std::string::npos) return -1;
+  if (err) *err = atoi(buf.substr(1, colon - 1).c_str());
+  out = buf.substr(colon + 1);
+  return buf[0] == '1' ? 1 : 0;
+}
+static int hash_with_limit(const Bytes &P, const Bytes &S, int seconds, Bytes &out) { return hash_with_limit_ms(P, S, seconds * 1000, out); }
+
 // ---------------------------------------------------------------------------
 // C10
 static Verdict c10_check(const KV &c, Ctx &ctx) {
@@ -225,8 +261,24 @@ static Verdict c10_check(const KV &c, Ctx &ctx) {
     char *hh = st ? crypt(P.c_str(), st) : nullptr;
     ctx.st.executed += 2;
     if (!hh || h.out != hh) return "C10 crypt(P, crypt_gensalt(...)) with the static buffer differs: " + vis(hh ? hh : "(null)", 300) + " vs " + vis(h.out, 300);
-  } else
+  } else {
     ctx.st.skipped_cost++;
+    // Too expensive to finish: crypt is started in a child with a short wall-clock limit.  Rejecting the setting takes
+    // no time, so a failure inside the limit is a rejection of a generated setting; running into the limit says nothing.
+    static std::set<uint64_t> probed;  // one probe per (method, order of magnitude of the cost)
+    size_t cap = ctx.tier.thorough ? 400 : 40;
+    uint64_t sig = fnv(std::string(METHOD_NAME[m]) + '\0' + std::to_string(cost.rounds ? 64 - __builtin_clzll(cost.rounds) : 0) + '\0' + std::to_string(cost.N) + '\0' + std::to_string(cost.r));
+    if (cost.mem <= (64ULL << 20) && probed.size() < cap && probed.insert(sig).second) {
+      Bytes out;
+      int perr = 0;
+      int rc_ = hash_with_limit_ms(P, s, 200, out, &perr);
+      ctx.st.executed++;
+      ctx.st.cls(std::string("c10-probe/") + METHOD_NAME[m] + (rc_ == -1 ? "/limit" : rc_ == 1 ? "/finished" : "/failed"));
+      if (rc_ == 0 && perr != ENOMEM)
+        return "C10 crypt rejects a generated setting (within 200 ms, errno=" + std::to_string(perr) + "): " + vis(s, 200) + " [prefix=\"" + vis(prefix, 80) + "\" count=" + std::to_string(count) + " nrbytes=" + std::to_string(nb) + "]";
+      if (rc_ == 1 && out.compare(0, s.size(), s) != 0) return "C10 hash does not keep the generated setting as a literal prefix: setting=" + vis(s, 200) + " hash=" + vis(out, 300);
+    }
+  }
   if (ctx.st.nontriv(fnv(prefix + '\0' + std::to_string(count) + '\0' + std::to_string(nb) + '\0' + rb.substr(0, 16) + (isnull ? "N" : ""))))
     ctx.st.sample("crypt_gensalt_rn(" + (isnull ? std::string("NULL") : "\"" + vis(prefix, 60) + "\"") + ", " + std::to_string(count) + ", rbytes[" + std::to_string(nb) + "]) = \"" + vis(s, 150) + "\"");
   ctx.st.cls(std::string("c10/") + METHOD_NAME[m] + "/" + count_class(m, count) + "/" + nbc + (hashed ? "/hashed" : "/nothashed"));
@@ -235,33 +287,6 @@ static Verdict c10_check(const KV &c, Ctx &ctx) {
 
 // ---------------------------------------------------------------------------
 // C11
-// run crypt_rn in a child with a wall-clock limit; returns 1 finished ok, 0 finished fail, -1 killed by limit
-static int hash_with_limit(const Bytes &P, const Bytes &S, int seconds, Bytes &out) {
-  int fd[2];
-  if (pipe(fd)) return 0;
-  pid_t pid = fork();
-  if (pid == 0) {
-    close(fd[0]);
-    alarm((unsigned)seconds);
-    HashRes h = hash_rn(P, S);
-    std::string msg = (h.ok ? "1" : "0") + h.out;
-    (void)!write(fd[1], msg.data(), msg.size());
-    _exit(0);
-  }
-  close(fd[1]);
-  std::string buf;
-  char t[512];
-  ssize_t n;
-  while ((n = read(fd[0], t, sizeof t)) > 0) buf.append(t, (size_t)n);
-  close(fd[0]);
-  int st = 0;
-  waitpid(pid, &st, 0);
-  if (WIFSIGNALED(st) && WTERMSIG(st) == SIGALRM) return -1;
-  if (buf.empty()) return 0;
-  out = buf.substr(1);
-  return buf[0] == '1' ? 1 : 0;
-}
-
 static Verdict c11_check(const KV &c, Ctx &ctx) {
   Bytes prefix = c.get("prefix");
   if (memchr(prefix.data(), 0, prefix.size())) return "";
